@@ -3,6 +3,7 @@ CONSTANTS
   NSlots = 2
   MaxLen = 7
   WithMove = FALSE
+  Regrow = FALSE
   CloneDeep = TRUE
 INIT Init
 NEXT Next
